@@ -152,6 +152,59 @@ def h_first_message(S, B):
     S.observe("closed", csock.closed >= 1)
 
 
+def h_history(S, B):
+    """whether an object is "registered" is decided when the connect message arrives: an id that was connected to before and
+    has since been unregistered (by id, by object, or because the weakly registered object was collected), or an id that was
+    re-registered, is judged by the registry as it is now"""
+    import gc
+    rig.reset(S)
+    del LOG[:]
+    servertype = S.choice("servertype", ["thread", "multiplex"])
+    daemon = rig.make_daemon()
+    target = Target()
+    weak = S.flag("registered_weakly")
+    daemon.register(target, "target", weak=weak)
+
+    def connect(name):
+        csock = rig.FakeSock(name)
+        csock.queue(rig.build_message(protocol.MSG_CONNECT, 0, 5, 3, {"handshake": "hi", "object": "target"}))
+        csock.queue(rig.build_message(protocol.MSG_INVOKE, 0, 6, 3, ("target", "touch", (), {})))
+        try:
+            if servertype == "thread":
+                servers.make_job(daemon, csock)()
+            else:
+                srv = servers.make_multiplex(daemon)
+                srv.sock.pending.append(csock)
+                srv.events([srv.sock])
+                for c in [c for c in srv.selector.registered if c is not srv.sock]:
+                    srv.events([c])
+        except Exception as x:
+            S.check("server-contains-handshake-errors", False)
+        return csock, rig.parse_sent(csock)
+    if S.flag("an_earlier_connection_was_accepted"):
+        s0, r0 = connect("A")
+        S.check("first-connection-is-accepted-and-served", len(r0) >= 1 and r0[0].type == protocol.MSG_CONNECTOK and LOG == ["touch"])
+        del LOG[:]
+    how = S.choice("then", ["unregister-by-id", "unregister-by-object", "collected", "still-registered"])
+    if how == "unregister-by-id":
+        daemon.unregister("target")
+    elif how == "unregister-by-object":
+        daemon.unregister(target)
+    elif how == "collected":
+        S.assume(weak, "only a weakly registered object goes away with its last reference")
+        target = None
+        gc.collect()
+    s1, r1 = connect("B")
+    S.cover("history:" + how)
+    if how == "still-registered":
+        S.check("registered-object-is-still-accepted", len(r1) >= 1 and r1[0].type == protocol.MSG_CONNECTOK and LOG == ["touch"])
+    else:
+        S.check("unregistered-object-is-refused", len(r1) == 1 and r1[0].type == protocol.MSG_CONNECTFAIL)
+        S.check("nothing-executed-for-the-refused-connection", LOG == [])
+        S.check("refused-connection-is-closed", s1.closed >= 1)
+    S.observe("replies", [r.type for r in r1])
+
+
 def _reset():
     from pysym.runner import default_reset
     default_reset()
@@ -168,4 +221,8 @@ SPECS = [
                  "check:reply-is-connectfail", "check:pipelined-call-served-after-acceptance"],
          native_patch=env.native_env, reset=_reset,
          desc="first message with symbolic type/serializer id/flags/seq, seven payload shapes, eight validator behaviours, known or symbolic unknown object id, an INVOKE pipelined behind it; thread job and multiplex event path"),
+    Spec("history", h_history, {"quick": {}, "thorough": {}},
+         covers=["history:unregister-by-id", "history:unregister-by-object", "history:collected", "history:still-registered",
+                 "check:unregistered-object-is-refused"], native_patch=env.native_env, reset=_reset,
+         desc="a connect (with a pipelined call) for an id that was registered (strongly or weakly), possibly connected to before, and then unregistered by id / by object / collected / left alone: judged by the registry as it is when the connect arrives; both servers"),
 ]
